@@ -71,25 +71,79 @@ theorem keys_plainOf_nodup : ∀ (m : List (Name × Val)), (omKeys m).Nodup → 
       simp only [plainOf, List.filterMap_cons]
       exact ih h.2
 
+theorem keys_split : ∀ (m : List (Name × Val)) (a : Name), a ∈ omKeys m →
+    a ∈ (plainOf m).map (·.1) ∨ a ∈ (iaOf m).map (·.1) := by
+  intro m; induction m with
+  | nil => intro a h; cases h
+  | cons kv rest ih =>
+    intro a h
+    obtain ⟨k, v⟩ := kv
+    simp only [omKeys, List.map_cons, List.mem_cons] at h
+    cases v with
+    | plain q =>
+      simp only [plainOf, iaOf, List.filterMap_cons, List.map_cons, List.mem_cons]
+      rcases h with h | h
+      · exact Or.inl (Or.inl h)
+      · exact (ih a h).imp (fun x => Or.inr x) id
+    | ia f =>
+      simp only [plainOf, iaOf, List.filterMap_cons, List.map_cons, List.mem_cons]
+      rcases h with h | h
+      · exact Or.inr (Or.inl h)
+      · exact (ih a h).imp id (fun x => Or.inr x)
+
+theorem plain_ia_disjoint : ∀ (m : List (Name × Val)) (a : Name), (omKeys m).Nodup →
+    a ∈ (plainOf m).map (·.1) → a ∉ (iaOf m).map (·.1) := by
+  intro m; induction m with
+  | nil => intro a _ h; cases h
+  | cons kv rest ih =>
+    intro a hnd h
+    obtain ⟨k, v⟩ := kv
+    simp only [omKeys, List.map_cons, List.nodup_cons] at hnd
+    cases v with
+    | plain q =>
+      simp only [plainOf, iaOf, List.filterMap_cons, List.map_cons, List.mem_cons] at h ⊢
+      rcases h with h | h
+      · subst h; exact fun hm => hnd.1 (keys_iaOf_sub rest a hm)
+      · exact ih a hnd.2 h
+    | ia f =>
+      simp only [plainOf, iaOf, List.filterMap_cons, List.map_cons, List.mem_cons, not_or] at h ⊢
+      exact ⟨fun hak => hnd.1 (hak ▸ keys_plainOf_sub rest a h), ih a hnd.2 h⟩
+
 /-! ### sort elements -/
 
-/-- the function attached to a sort element: reaction rate, derived function, or a variable's assignment -/
+/-- `initial_assignments`: of the variables, then of the parameters -/
+def iasOf (c : Content) : List (Name × Fn) := omUnion (iaOf c.vars) (iaOf c.pars)
+
+/-- a name the dependency sort places: a variable or a parameter defined by an initial assignment, a derived
+    quantity, a reaction -/
+def IsElem (c : Content) (k : Name) : Prop :=
+  k ∈ (iaOf c.vars).map (·.1) ∨ k ∈ (iaOf c.pars).map (·.1) ∨ k ∈ omKeys c.derived ∨ k ∈ omKeys c.rxns
+
+theorem iasOf_keys {c : Content} (h : OkV c) :
+    ((iasOf c).map (·.1)).Nodup ∧ ∀ x, x ∈ (iasOf c).map (·.1) ↔
+      (x ∈ (iaOf c.vars).map (·.1) ∨ x ∈ (iaOf c.pars).map (·.1)) :=
+  keys_omUnion_nodup (iaOf c.pars) (iaOf c.vars) (keys_iaOf_nodup _ h.names.vNd)
+
+theorem iasOf_sub {c : Content} (h : OkV c) {x : Name} (hx : x ∈ (iasOf c).map (·.1)) :
+    x ∈ omKeys c.vars ∨ x ∈ omKeys c.pars :=
+  ((iasOf_keys h).2 x).mp hx |>.imp (keys_iaOf_sub _ _) (keys_iaOf_sub _ _)
+
+/-- the function attached to a sort element: reaction rate, derived function, or an initial assignment -/
 def defOfE (c : Content) (k : Name) : Option Fn :=
   match c.rxns.lookup k with
   | some r => some r.rate
   | none => match c.derived.lookup k with
     | some f => some f
-    | none => (iaOf c.vars).lookup k
+    | none => (iasOf c).lookup k
 
 def defsE (c : Content) (o : List Name) : List (Name × Fn) :=
   o.filterMap fun k => (defOfE c k).map fun f => (k, f)
 
 theorem toSort_eqV {c : Content} (h : OkV c) :
-    c.toSort = omUnion (omUnion ((iaOf c.vars).map fun kv => (kv.1, Comp.fn kv.2))
+    c.toSort = omUnion (omUnion ((iasOf c).map fun kv => (kv.1, Comp.fn kv.2))
         (c.derived.map fun kv => (kv.1, Comp.fn kv.2)))
       (c.rxns.map fun kv => (kv.1, Comp.fn kv.2.rate)) := by
-  have h2 := (plainOf_noIA h.iaP).2
-  simp [Content.toSort, h2, h.surs, omUnion_nil_right]
+  simp [Content.toSort, iasOf, h.surs, omUnion_nil_right]
 
 theorem toSort_lookupV {c : Content} (h : OkV c) (k : Name) :
     c.toSort.lookup k = (defOfE c k).map Comp.fn := by
@@ -101,21 +155,20 @@ theorem toSort_lookupV {c : Content} (h : OkV c) (k : Name) :
   cases c.rxns.lookup k <;> cases c.derived.lookup k <;> simp
 
 theorem toSort_keysV {c : Content} (h : OkV c) :
-    (c.toSort.map (·.1)).Nodup ∧ ∀ x, x ∈ c.toSort.map (·.1) ↔
-      (x ∈ (iaOf c.vars).map (·.1) ∨ x ∈ omKeys c.derived ∨ x ∈ omKeys c.rxns) := by
+    (c.toSort.map (·.1)).Nodup ∧ ∀ x, x ∈ c.toSort.map (·.1) ↔ IsElem c x := by
   rw [toSort_eqV h]
-  have h0 : (((iaOf c.vars).map fun kv => (kv.1, Comp.fn kv.2)).map (·.1)).Nodup := by
-    rw [keys_map_snd Comp.fn]; exact keys_iaOf_nodup _ h.names.vNd
+  have h0 : (((iasOf c).map fun kv => (kv.1, Comp.fn kv.2)).map (·.1)).Nodup := by
+    rw [keys_map_snd Comp.fn]; exact (iasOf_keys h).1
   obtain ⟨h1, h2⟩ := keys_omUnion_nodup (c.derived.map fun kv => (kv.1, Comp.fn kv.2)) _ h0
   obtain ⟨h3, h4⟩ := keys_omUnion_nodup (c.rxns.map fun kv => (kv.1, Comp.fn kv.2.rate)) _ h1
   refine ⟨h3, fun x => ?_⟩
-  rw [h4 x, h2 x, keys_map_snd (fun r : Rxn => Comp.fn r.rate), keys_map_snd Comp.fn, keys_map_snd Comp.fn]
-  simp [omKeys, or_assoc]
+  rw [h4 x, h2 x, keys_map_snd (fun r : Rxn => Comp.fn r.rate), keys_map_snd Comp.fn, keys_map_snd Comp.fn,
+    (iasOf_keys h).2 x]
+  simp [IsElem, omKeys, or_assoc]
 
 theorem order_factsV {c : Content} (h : OkV c) {order : List Name}
     (hs : sortDeps c.available c.deps = .ok order) :
-    order.Nodup ∧ (∀ k, k ∈ order ↔
-      (k ∈ (iaOf c.vars).map (·.1) ∨ k ∈ omKeys c.derived ∨ k ∈ omKeys c.rxns)) := by
+    order.Nodup ∧ (∀ k, k ∈ order ↔ IsElem c k) := by
   have hp := sortDeps_perm hs
   have hnames : c.deps.map (·.name) = c.toSort.map (·.1) := by
     simp [Content.deps, List.map_map, Function.comp_def]
@@ -123,15 +176,17 @@ theorem order_factsV {c : Content} (h : OkV c) {order : List Name}
   obtain ⟨h1, h2⟩ := toSort_keysV h
   exact ⟨hp.nodup_iff.mpr h1, fun k => by rw [hp.mem_iff, h2 k]⟩
 
-theorem defOfE_some_of_mem {c : Content} (h : OkV c) {k : Name}
-    (hk : k ∈ (iaOf c.vars).map (·.1) ∨ k ∈ omKeys c.derived ∨ k ∈ omKeys c.rxns) :
+theorem defOfE_some_of_mem {c : Content} (h : OkV c) {k : Name} (hk : IsElem c k) :
     ∃ f, defOfE c k = some f := by
   have hn := h.names
   unfold defOfE
-  rcases hk with hk | hk | hk
+  rcases hk with hk | hk | hk | hk
   · have hv : k ∈ omKeys c.vars := keys_iaOf_sub _ _ hk
     rw [lookup_none_of_not_mem (hn.vr k hv), lookup_none_of_not_mem (hn.vd k hv)]
-    exact lookup_some_of_mem_keys hk
+    exact lookup_some_of_mem_keys (((iasOf_keys h).2 k).mpr (Or.inl hk))
+  · have hp : k ∈ omKeys c.pars := keys_iaOf_sub _ _ hk
+    rw [lookup_none_of_not_mem (hn.pr k hp), lookup_none_of_not_mem (hn.pd k hp)]
+    exact lookup_some_of_mem_keys (((iasOf_keys h).2 k).mpr (Or.inr hk))
   · rw [lookup_none_of_not_mem (hn.dr k hk)]
     obtain ⟨f, hf⟩ := lookup_some_of_mem_keys (m := c.derived) hk
     exact ⟨f, by rw [hf]⟩
@@ -139,7 +194,7 @@ theorem defOfE_some_of_mem {c : Content} (h : OkV c) {k : Name}
     exact ⟨r.rate, by rw [hr]⟩
 
 theorem mapM_defOfE {c : Content} (h : OkV c) : ∀ {o : List Name},
-    (∀ k ∈ o, k ∈ (iaOf c.vars).map (·.1) ∨ k ∈ omKeys c.derived ∨ k ∈ omKeys c.rxns) →
+    (∀ k ∈ o, IsElem c k) →
     o.mapM (fun k => (defOfE c k).map fun f => (k, f)) = some (defsE c o) ∧ (defsE c o).map (·.1) = o := by
   intro o; induction o with
   | nil => intro _; exact ⟨rfl, rfl⟩
@@ -153,28 +208,79 @@ theorem mapM_defOfE {c : Content} (h : OkV c) : ∀ {o : List Name},
       rw [h2]
 
 theorem evalInOrder_defsE {c : Content} (h : OkV c) {o : List Name}
-    (ho : ∀ k ∈ o, k ∈ (iaOf c.vars).map (·.1) ∨ k ∈ omKeys c.derived ∨ k ∈ omKeys c.rxns) (env : Env) :
+    (ho : ∀ k ∈ o, IsElem c k) (env : Env) :
     evalInOrder c.toSort o env = evalSeq (defsE c o) env := by
   have := evalInOrder_eq_evalSeq c.toSort (defOfE c) (toSort_lookupV h) o env
   rw [(mapM_defOfE h ho).1] at this
   exact this
 
-/-- the generated body = the sort elements without the variables -/
+/-! ### the names of the order, their classification -/
+
+theorem order_kinds {c : Content} (hok : OkV c) {order : List Name} (homem : ∀ k, k ∈ order ↔ IsElem c k) :
+    (∀ k ∈ order, k ∈ omKeys c.vars ∨ k ∈ omKeys c.pars ∨
+        (k ∉ omKeys c.vars ∧ k ∉ omKeys c.pars ∧ (k ∈ omKeys c.derived ∨ k ∈ omKeys c.rxns)))
+    ∧ (∀ k ∈ order, k ≠ "time") := by
+  have hn := hok.names
+  have h1 : ∀ k ∈ order, k ∈ omKeys c.vars ∨ k ∈ omKeys c.pars ∨
+        (k ∉ omKeys c.vars ∧ k ∉ omKeys c.pars ∧ (k ∈ omKeys c.derived ∨ k ∈ omKeys c.rxns)) := by
+    intro k hk
+    rcases (homem k).mp hk with h | h | h | h
+    · exact Or.inl (keys_iaOf_sub _ _ h)
+    · exact Or.inr (Or.inl (keys_iaOf_sub _ _ h))
+    · exact Or.inr (Or.inr ⟨fun hv => hn.vd k hv h, fun hp => hn.pd k hp h, Or.inl h⟩)
+    · exact Or.inr (Or.inr ⟨fun hv => hn.vr k hv h, fun hp => hn.pr k hp h, Or.inr h⟩)
+  refine ⟨h1, ?_⟩
+  intro k hk ht
+  rcases h1 k hk with h | h | ⟨_, _, h | h⟩
+  · exact hn.time_v (ht ▸ h)
+  · exact hn.time_p (ht ▸ h)
+  · exact hn.time_d (ht ▸ h)
+  · exact hn.time_r (ht ▸ h)
+
+theorem classify_order {c : Content} (hok : OkV c) {order : List Name} (hond : order.Nodup)
+    (homem : ∀ k, k ∈ order ↔ IsElem c k) :
+    ∃ apn', classify c order [] [] (omKeys c.pars)
+        = (order.filter (fun k => (omKeys c.vars).contains k || apn'.contains k),
+           order.filter (fun k => !((omKeys c.vars).contains k || apn'.contains k)), apn')
+      ∧ (∀ a, a ∈ omKeys c.pars → a ∈ apn')
+      ∧ (∀ a, a ∈ apn' → a ∈ omKeys c.pars ∨ (a ∈ order ∧ a ∉ omKeys c.vars ∧ a ∉ omKeys c.pars))
+      ∧ (∀ k ∈ order, k ∈ apn' → k ∈ omKeys c.pars ∨ (k ∉ omKeys c.rxns ∧ k ∉ omKeys c.vars ∧
+            ∃ d, c.derived.lookup k = some d ∧ ∀ a ∈ d.args, a ∈ apn')) := by
+  have hn := hok.names
+  obtain ⟨hk, _⟩ := order_kinds hok homem
+  obtain ⟨apn', h1, h2, h3, h4⟩ := classify_specP c hok.surs order [] [] (omKeys c.pars) hond
+    (fun a ha => ha) (fun k _ h => h)
+    (fun k _ h => h.elim (hn.vr k) (hn.pr k))
+    (fun k _ hv => hn.vp k hv)
+    (fun k hko => by
+      rcases hk k hko with h | h | ⟨_, _, h | h⟩
+      · exact Or.inr (Or.inl h)
+      · exact Or.inr (Or.inr (Or.inl h))
+      · exact Or.inr (Or.inr (Or.inr (lookup_some_of_mem_keys h)))
+      · exact Or.inl h)
+  exact ⟨apn', by simpa using h1, h2, h3, h4⟩
+
+/-- a name that is written as an input or as a constant, not as an assignment of the body -/
+def isFixed (c : Content) (k : Name) : Bool := (omKeys c.vars).contains k || (omKeys c.pars).contains k
+
+/-- the generated body = the sort elements without the variables and the parameters -/
 theorem defsOf_eq_filter {c : Content} (h : OkV c) : ∀ (o : List Name),
-    defsOf c o = (defsE c o).filter fun kf => !(omKeys c.vars).contains kf.1 := by
+    defsOf c o = (defsE c o).filter fun kf => !isFixed c kf.1 := by
   have hn := h.names
   intro o; induction o with
   | nil => rfl
   | cons k ks ih =>
     simp only [defsOf, defsE, List.filterMap_cons] at ih ⊢
-    by_cases hv : k ∈ omKeys c.vars
+    by_cases hv : k ∈ omKeys c.vars ∨ k ∈ omKeys c.pars
     · have hd : defOf c k = none := by
-        simp [defOf, lookup_none_of_not_mem (hn.vr k hv), lookup_none_of_not_mem (hn.vd k hv)]
+        rcases hv with hv | hv
+        · simp [defOf, lookup_none_of_not_mem (hn.vr k hv), lookup_none_of_not_mem (hn.vd k hv)]
+        · simp [defOf, lookup_none_of_not_mem (hn.pr k hv), lookup_none_of_not_mem (hn.pd k hv)]
       rw [hd]
       cases he : defOfE c k with
       | none => simpa using ih
       | some f =>
-        have hc : (omKeys c.vars).contains k = true := by simpa using hv
+        have hc : isFixed c k = true := by simpa [isFixed] using hv
         simp only [Option.map_some, Option.map_none, List.filter_cons, hc, Bool.not_true, Bool.false_eq_true, if_false]
         exact ih
     · have hd : defOfE c k = defOf c k := by
@@ -184,12 +290,12 @@ theorem defsOf_eq_filter {c : Content} (h : OkV c) : ∀ (o : List Name),
         | none =>
           cases c.derived.lookup k with
           | some f => rfl
-          | none => exact lookup_none_of_not_mem (fun hm => hv (keys_iaOf_sub _ _ hm))
+          | none => exact lookup_none_of_not_mem (fun hm => hv (iasOf_sub h hm))
       rw [hd]
       cases defOf c k with
       | none => simpa using ih
       | some f =>
-        have hc : (omKeys c.vars).contains k = false := by simpa using hv
+        have hc : isFixed c k = false := by simpa [isFixed] using hv
         simp only [Option.map_some, List.filter_cons, hc, Bool.not_false, if_true]
         rw [ih]
 
